@@ -230,8 +230,8 @@ class C04(Check):
             for ti, prog in enumerate(self.scale_up_programs(replay, step)):
                 jobs.append({"flavour": "ser", "kind": "prog", "args": {"prog": prog, "thr": 1, "maxtri": 400000}, "timeout": 600,
                              "cand": ci, "try": ti, "role": "ref"})
-                for _ in range(3):
-                    pa = {"W": crng.choice([2, 4, 8]), "stay": crng.choice([30, 60]), "own": 70, "seed": crng.randrange(1, 1 << 30), "thr": 1}
+                for W in WS:
+                    pa = {"W": W, "stay": crng.choice([30, 60]), "own": 70, "seed": crng.randrange(1, 1 << 30), "thr": 1}
                     jobs.append({"flavour": "par", "kind": "prog", "args": dict({"prog": prog, "maxtri": 400000}, **pa), "timeout": 600,
                                  "cand": ci, "try": ti, "role": "par", "pa": pa, "prog": prog})
         res = self.pool.run_all(jobs) if jobs else []
@@ -286,15 +286,34 @@ class C04(Check):
         if step >= len(ops):
             return []
         op = ops[step]
-        tries = [";".join(BIG_PREFIX + [op])]
-        big = []
-        for o in ops[:step + 1]:
-            if o.startswith("sphere:"):
-                a = o.split(":")[1].split(",")
-                big.append("sphere:%s,66" % a[0])
-            else:
-                big.append(o)
-        tries.append(";".join(big))
+        rng = random.Random(hash(replay["program"]) & 0xffff)
+
+        def bigger(o):
+            """Size-scaled variants of a constructor op."""
+            name, _, rest = o.partition(":")
+            a = rest.split(",") if rest else []
+            if name == "sphere":
+                return ["sphere:%s,66" % a[0]]
+            if name == "cellrow":
+                return ["cellrow:%d,%s,%s" % (m, a[1], a[2]) for m in (3000, 3001, 3002, rng.randint(2500, 5500))]
+            if name == "circle":
+                return ["circle:%s,1800" % a[0]]
+            if name == "cyl":
+                return ["cyl:%s,%s,%s,390,%s" % (a[0], a[1], a[2], a[4])]
+            if name == "levelset":
+                return ["levelset:%s,20,%s,%s" % (a[0], a[2], a[3])]
+            return [o]
+
+        tries = []
+        if gen.op_kind(op) in ("sphere", "cellrow", "circle", "cyl", "levelset"):
+            for v in bigger(op):
+                tries.append(v)
+        else:
+            tries.append(";".join(BIG_PREFIX + [op]))
+            big = []
+            for o in ops[:step + 1]:
+                big.append(bigger(o)[0])
+            tries.append(";".join(big))
         return tries
 
     def reproduce(self, replay, fresh=False):
